@@ -67,7 +67,8 @@ def py_functions(build):
 
 
 def in_params(sig):
-    return [p for p in sig.params if p.intent in ("in", "inout")]
+    """the parameters a Python caller supplies (implied and hidden ones are computed by the wrapper)"""
+    return [p for p in sig.params if p.intent in ("in", "inout") and not p.attrs.get("implied") and not p.attrs.get("hidden")]
 
 
 def out_params(sig):
@@ -95,10 +96,39 @@ class PyWorld(object):
             self.kwds = ex.new_obj("py_kwds_dict", 64, "extern")
             self.kwds.tag["py"] = ("dict", self.nkw)
 
-    def new(self, kind, value=None):
+    def new(self, kind, value=None, refcnt=1):
         o = self.ex.new_obj("py_" + kind, 64, "extern")
         o.tag["py"] = (kind, value)
+        # {ob_refcnt, ob_type}: the inline Py_INCREF / Py_DECREF of the 3.12 headers read and write the count
+        o.cells[0] = (8, z3.BitVecVal(refcnt, 64))
         return Ptr(o, 0)
+
+    def type_object(self, flags):
+        """a type object whose tp_flags word (offset 168 in CPython 3.12) has the given subclass bits"""
+        key = ("type", flags)
+        if key not in self.__dict__.setdefault("_types", {}):
+            t = self.ex.new_obj("py_type_object", 416, "extern")
+            t.cells[0] = (8, z3.BitVecVal(1 << 30, 64))
+            t.cells[168] = (8, z3.BitVecVal(flags, 64))
+            self._types[key] = t
+        return self._types[key]
+
+    def new_list(self, n, tag):
+        """a real PyListObject layout {refcnt, type, ob_size, ob_item} so that the PySequence_Fast_* macros work"""
+        items = self.ex.new_obj("py_list_items_" + tag, max(8 * n, 8), "extern")
+        elems = []
+        for k in range(n):
+            it = self.new("item", {"index": k, "of": tag})
+            elems.append(it)
+            items.cells[8 * k] = (8, it)
+        lst = self.ex.new_obj("py_list_" + tag, 40, "extern")
+        lst.tag["py"] = ("list", elems)
+        lst.cells[0] = (8, z3.BitVecVal(2, 64))            # the caller's reference and the one PySequence_Fast returns
+        lst.cells[8] = (8, Ptr(self.type_object(1 << 25), 0))   # Py_TPFLAGS_LIST_SUBCLASS
+        lst.cells[16] = (8, z3.BitVecVal(n, 64))
+        lst.cells[24] = (8, Ptr(items, 0))
+        lst.cells[32] = (8, z3.BitVecVal(n, 64))
+        return lst, elems
 
     def exc_name(self, p):
         if isinstance(p, Ptr) and p.obj is not None:
@@ -175,6 +205,8 @@ def install_python(ex, w):
         ok_all = True
         if not fail:
             for j in range(total):
+                if units[j][0] == "O":
+                    continue            # any object is accepted as it is
                 okj = z3.Bool("conv_ok_%d_%d" % (pn, j))
                 if not ex_.e.branch(okj):
                     ok_all = False
@@ -200,7 +232,10 @@ def install_python(ex, w):
                 ex_.store_ptr(ptrs[0], Ptr(o, 0))
                 rec["stored"][j] = ("string", L, o.arr)
             elif code == "O":
-                ob = w.new("object")
+                # the same Python argument is seen by every overload's parser
+                ob = w.__dict__.setdefault("argobj", {}).get(j)
+                if ob is None:
+                    ob = w.argobj[j] = w.new("object")
                 ex_.store_ptr(ptrs[0], ob)
                 rec["stored"][j] = ("object", ob)
             elif code == "O!":
@@ -334,6 +369,94 @@ def install_python(ex, w):
         w.err = None
         return None
 
+    def sequence_fast(ex_, name, a, at, rt):
+        """PySequence_Fast(obj, msg): a list with 0..2 items of engine-chosen kinds, or NULL with TypeError"""
+        ob = a[0]
+        if not (isinstance(ob, Ptr) and ob.obj is not None and ob.obj.tag.get("py")):
+            w.misuse.append("PySequence_Fast on something that is not an object")
+            w.err = "SystemError"
+            return NULL
+        st = ob.obj.tag.setdefault("as_list", None)
+        if st is None:
+            tag = ob.obj.name + str(ob.obj.id)
+            if not ex_.e.branch(z3.Bool("arg_%s_is_a_sequence" % tag)):
+                ob.obj.tag["as_list"] = "no"
+            else:
+                n = 0
+                for k in (0, 1):
+                    if ex_.e.branch(z3.Bool("list_%s_has_more_than_%d" % (tag, k))):
+                        n = k + 1
+                    else:
+                        break
+                lst, elems = w.new_list(n, tag)
+                for k, it in enumerate(elems):
+                    kv = z3.Int("item_kind_%s_%d" % (tag, k))        # 0 int, 1 float, 2 something else
+                    ex_.e.assume(z3.And(kv >= 0, kv <= 2))
+                    it.obj.tag["kind"] = ex_.e.choose(kv)
+                    it.obj.tag["ival"] = z3.BitVec("item_int_%s_%d" % (tag, k), 64)
+                    it.obj.tag["fval"] = z3.BitVec("item_float_%s_%d" % (tag, k), 64)
+                ob.obj.tag["as_list"] = (lst, elems)
+            st = ob.obj.tag["as_list"]
+        if st == "no":
+            w.err = "PyExc_TypeError"
+            return NULL
+        lst, elems = st
+        return Ptr(lst, 0)
+
+    def as_long(ex_, name, a, at, rt):
+        it = a[0]
+        if isinstance(it, Ptr) and it.obj is not None and it.obj.tag.get("py", ("",))[0] == "item":
+            if it.obj.tag["kind"] == 0:
+                return it.obj.tag["ival"]
+            w.err = "PyExc_TypeError"        # a float or any other object "cannot be interpreted as an integer"
+            return z3.BitVecVal(-1, 64)
+        raise Unsupported("%s on %r" % (name, it))
+
+    def as_double(ex_, name, a, at, rt):
+        it = a[0]
+        if isinstance(it, Ptr) and it.obj is not None and it.obj.tag.get("py", ("",))[0] == "item":
+            if it.obj.tag["kind"] == 0:
+                return ex_.from_fp(z3.fpSignedToFP(z3.RNE(), it.obj.tag["ival"], z3.Float64()))
+            if it.obj.tag["kind"] == 1:
+                return it.obj.tag["fval"]
+            w.err = "PyExc_TypeError"
+            return ex_.float_const("-1.0", 64)
+        raise Unsupported("%s on %r" % (name, it))
+
+    def err_format(ex_, name, a, at, rt):
+        w.err = w.exc_name(a[0])
+        return NULL
+
+    def capsule_new(ex_, name, a, at, rt):
+        return w.new("capsule", {"ptr": a[0], "dtor": a[2]})
+
+    def capsule_get(ex_, name, a, at, rt):
+        c = a[0]
+        if isinstance(c, Ptr) and c.obj is not None and c.obj.tag.get("py", ("",))[0] == "capsule":
+            return c.obj.tag["py"][1]["ptr"]
+        w.misuse.append("PyCapsule_GetPointer on something that is not a capsule")
+        w.err = "SystemError"
+        return NULL
+
+    def dealloc(ex_, name, a, at, rt):
+        """_Py_Dealloc: the count dropped to zero; a capsule runs its destructor"""
+        ob = a[0]
+        if isinstance(ob, Ptr) and ob.obj is not None:
+            py = ob.obj.tag.get("py", ("",))
+            if py[0] == "capsule" and not ob.obj.tag.get("dead"):
+                ob.obj.tag["dead"] = True
+                d = py[1]["dtor"]
+                if isinstance(d, FuncPtr):
+                    ex_.call_function(d.name, [ob])
+            ob.obj.tag["dead"] = True
+        return None
+
+    S["PySequence_Fast"] = sequence_fast
+    S["PyLong_AsLong"] = as_long
+    S["PyFloat_AsDouble"] = as_double
+    S["PyErr_Format"] = err_format
+    S["PyCapsule_New"] = capsule_new
+    S["PyCapsule_GetPointer"] = capsule_get
     S["PyArg_ParseTupleAndKeywords"] = parse
     S["PyTuple_Size"] = tuple_size
     S["PyDict_Size"] = dict_size
@@ -349,7 +472,7 @@ def install_python(ex, w):
     S["PyErr_Occurred"] = err_occurred
     S["PyErr_ExceptionMatches"] = err_matches
     S["PyErr_Clear"] = err_clear
-    S["_Py_Dealloc"] = lambda ex_, name, a, at, rt: None
+    S["_Py_Dealloc"] = dealloc
 
 
 class PyHarness(object):
@@ -400,6 +523,9 @@ class PyHarness(object):
                     g = got.replace(" const", "").replace("const ", "").strip()
                     if p.kind() == "scalar" and p.cxx_type in wrapsym.NATIVE_TEXT and g != p.cxx_type:
                         ok = False
+                    if p.kind() == "nativep" and p.cxx_type in wrapsym.NATIVE_TEXT and \
+                            g.replace("*", "").replace("&", "").strip() != p.cxx_type:
+                        ok = False
                 if ok:
                     best = s
             if best is None:
@@ -417,6 +543,13 @@ class PyHarness(object):
                 elif p.kind() == "nativep" and p.intent in ("out", "inout") and p.attrs.get("dimension"):
                     vals.append(("array", v))
                     outs.append((p.name, ("array", v, p.attrs["dimension"])))
+                elif p.kind() == "nativep" and p.intent == "in" and (p.attrs.get("rank") or p.attrs.get("dimension")):
+                    ebits = ir.size_of(ir.resolve(argt[k + len(vals)]).to) * 8
+                    if isinstance(v, Ptr) and v.obj is not None:
+                        ex_.flush(v.obj)
+                        vals.append(("array_in", v, ebits, v.obj.arr, bool(v.obj.live), v.obj.size))
+                    else:
+                        vals.append(("array_in", v, ebits, None, False, 0))
                 elif p.kind() == "nativep" and p.intent in ("out", "inout"):
                     bits = ir.size_of(ir.resolve(argt[k + len(vals)]).to) * 8
                     rv = ex_.fresh("lib_out_" + p.name, bits)
@@ -473,7 +606,10 @@ class PyHarness(object):
         w = self.w
         return {"kernel": "python", "function": self.pyname, "supplied": w.total, "positional": w.npos, "keyword": w.nkw,
                 "parses": [{"format": p["format"], "converted": p["ok"]} for p in w.parses],
-                "called": [c[0] for c in self.calls], "error_set": w.err, "api_misuse": list(w.misuse), "what": what}
+                "called": [c[0] for c in self.calls], "error_set": w.err, "api_misuse": list(w.misuse), "what": what,
+                "lists": {str(j): ("not a sequence" if ob.obj.tag.get("as_list") == "no" else
+                                   [["int", "float", "other"][it.obj.tag["kind"]] for it in ob.obj.tag["as_list"][1]])
+                          for j, ob in getattr(w, "argobj", {}).items() if ob.obj.tag.get("as_list") is not None}}
 
     def judge(self, e, kind, value):
         cls = "python/%s" % self.pyname
@@ -493,10 +629,36 @@ class PyHarness(object):
         # which signature does the call select?
         sel = [s for s in self.entry["sigs"] if len(in_params(s)) - sum(1 for p in in_params(s) if p.init is not None) <= w.total <= len(in_params(s))]
         parsed_ok = [p for p in w.parses if p["ok"]]
+        # list-mode array arguments: a signature accepts the call only if the object is a sequence whose items all
+        # convert to its element type (an int item converts to int and double, a float item to double only)
+        argobj = getattr(w, "argobj", {})
+
+        def accepts(sg):
+            for j, p_ in enumerate(in_params(sg)[:w.total]):
+                ob = argobj.get(j)
+                if ob is None or not (p_.kind() == "nativep" and (p_.attrs.get("rank") or p_.attrs.get("dimension"))):
+                    continue
+                info = ob.obj.tag.get("as_list")
+                if info is None:
+                    continue
+                if info == "no":
+                    return False
+                kinds = [it.obj.tag["kind"] for it in info[1]]
+                okk = (0,) if p_.tname in ("int", "long", "short", "size_t", "unsigned int") else (0, 1)
+                if any(k_ not in okk for k_ in kinds):
+                    return False
+            return True
+        if argobj:
+            conv = [s_ for s_ in sel if accepts(s_)]
+            if sel and not conv:
+                parsed_ok = []          # a legitimate rejection: the list cannot be converted for any matching signature
+                sel_for_untried = []
+            else:
+                sel = conv[:1] if conv else sel      # the first matching signature in declaration order is the one selected
         noparse = bool(sel) and w.total == 0 and not w.parses and all(not in_params(s) for s in sel)
         if noparse:
             parsed_ok = [{"stored": {}, "ok": True}]
-        if not fail and sel and not parsed_ok and not noparse:
+        if not fail and sel and not parsed_ok and not noparse and not (argobj and not [s_ for s_ in sel if accepts(s_)]):
             # a call whose argument count matches a signature must at least be offered to that signature's parser
             tried = set()
             for p_ in w.parses:
@@ -505,7 +667,7 @@ class PyHarness(object):
             for s_ in sel:
                 ins_ = in_params(s_)
                 shape = (len(ins_) - sum(1 for q in ins_ if q.init is not None), len(ins_))
-                if shape not in tried and len(sel) == 1:
+                if shape not in tried and (len(sel) == 1 or not w.parses):
                     fail = "a call with %d arguments matches %s(%s) but is rejected without that signature's parser being tried" % (
                         w.total, s_.name, ", ".join(q.tname for q in ins_))
         if not fail:
@@ -557,6 +719,36 @@ class PyHarness(object):
                                     b_ = z3.Extract(a_.size() - 1, 0, b_) if b_.size() > a_.size() else z3.SignExt(a_.size() - b_.size(), b_)
                                 if e.check(a_ != b_) == "sat":
                                     fail = "argument '%s' does not reach the library with the converted value" % p.name
+                            elif st[0] == "object" and v[0] == "array_in":
+                                info = st[1].obj.tag.get("as_list")
+                                if not info or info == "no":
+                                    fail = "array argument '%s' reaches the library although the Python object is not a sequence" % p.name
+                                else:
+                                    elems = info[1]
+                                    ptr, ebits, arr0, live0, size0 = v[1], v[2], v[3], v[4], v[5]
+                                    if not (isinstance(ptr, Ptr) and ptr.obj is not None and live0):
+                                        if elems:
+                                            fail = "array argument '%s' is not a live buffer when the library is called" % p.name
+                                    elif conc(size0) is not None and conc(size0) < len(elems) * (ebits // 8):
+                                        fail = "array argument '%s': the buffer holds fewer than %d elements" % (p.name, len(elems))
+                                    else:
+                                        for k_, it in enumerate(elems):
+                                            got_ = z3.Concat(*[z3.Select(arr0, bv(ptr.off) + k_ * (ebits // 8) + b_) for b_ in range(ebits // 8 - 1, -1, -1)])
+                                            if p.tname in ("double", "float"):
+                                                want_ = it.obj.tag["fval"] if it.obj.tag["kind"] == 1 else \
+                                                    self.ex.from_fp(z3.fpSignedToFP(z3.RNE(), it.obj.tag["ival"], z3.Float64()))
+                                            else:
+                                                want_ = z3.Extract(ebits - 1, 0, it.obj.tag["ival"])
+                                            if want_.size() == got_.size() and e.check(got_ != want_) == "sat":
+                                                fail = "element %d of array argument '%s' does not reach the library with the item's value" % (k_, p.name)
+                                                break
+                                    # the implied extent
+                                    for q_, vq in zip(sig.params, vals):
+                                        if not fail and q_.attrs.get("implied") and re.match(r"size\(\s*%s\s*\)" % re.escape(p.name), q_.attrs["implied"]) and vq[0] == "scalar":
+                                            if e.check(wrapsym.sx(vq[1]) != len(elems)) == "sat":
+                                                fail = "implied argument '%s' is not the number of items of '%s'" % (q_.name, p.name)
+                                    if not fail and isinstance(ptr, Ptr) and ptr.obj is not None and ptr.obj.kind == "heap" and ptr.obj.live:
+                                        fail = "the buffer converted from the list argument '%s' is never released" % p.name
                             elif st[0] == "bool":
                                 a_ = v[1] if z3.is_bool(v[1]) else v[1] != 0
                                 if e.check(a_ != st[1]) == "sat":
@@ -750,6 +942,9 @@ def native_call(w):
                'void divmod(int a, int b, int *q, int *r) { printf("LIB %d %d\\n", a, b); *q = 11; *r = 13; }',
                'int pick(int a, int b, int c) { printf("LIB %d %d %d\\n", a, b, c); return 3; }',
                'int pick(double x) { printf("LIB %g\\n", x); return 1; }',
+               'long isum(const int *v, int n) { printf("LIB"); for (int i = 0; i < n; i++) printf(" %d", v[i]); printf(" | %d\\n", n); return 21; }',
+               'int total(const int *v, int n) { printf("LIB"); for (int i = 0; i < n; i++) printf(" %d", v[i]); printf(" | %d\\n", n); return 31; }',
+               'double total(const double *v, int n) { printf("LIB"); for (int i = 0; i < n; i++) printf(" %g", v[i]); printf(" | %d\\n", n); return 4.5; }',
                'int combo(int a, int b, int c, int d) { printf("LIB %d %d %d %d\\n", a, b, c, d); return 4; }',
                'int combo(double v, int k, int off) { printf("LIB %g %d %d\\n", v, k, off); return 8; }',
                'int stride(int num, int offset, int step) { printf("LIB %d %d %d\\n", num, offset, step); return 9; }',
@@ -778,8 +973,19 @@ def native_call(w):
                 break
         sample = {"int": "5", "long": "5", "double": "1.5", "bool": "True", "std::string": "'ab'", "char": "'ab'"}
         ins = in_params(sig)
-        posargs = [sample.get(p.tname, "1") for p in ins[:w["positional"]]]
-        kwargs = ["%s=%s" % (p.name, sample.get(p.tname, "1")) for p in ins[w["positional"]:w["supplied"]]]
+        lists = w.get("lists", {})
+
+        def sample_of(j, p):
+            li = lists.get(str(j))
+            if li is None and p.kind() == "nativep" and (p.attrs.get("rank") or p.attrs.get("dimension")):
+                return "[3, 3]"          # a list-mode array argument the symbolic run never looked into
+            if li is None:
+                return sample.get(p.tname, "1")
+            if li == "not a sequence":
+                return "5"
+            return "[" + ", ".join({"int": "3", "float": "2.5", "other": "'x'"}[k] for k in li) + "]"
+        posargs = [sample_of(j, p) for j, p in enumerate(ins[:w["positional"]])]
+        kwargs = ["%s=%s" % (p.name, sample_of(w["positional"] + j, p)) for j, p in enumerate(ins[w["positional"]:w["supplied"]])]
         extra = ["1"] * max(0, w["positional"] - len(ins))
         call = "pyl.%s(%s)" % (w["function"], ", ".join(posargs + extra + kwargs))
         prog = ("import sys; sys.path.insert(0, %r); import pyl\n"
@@ -788,6 +994,20 @@ def native_call(w):
         out = p.stdout
         valid = any(len(in_params(s)) - sum(1 for q in in_params(s) if q.init is not None) <= w["supplied"] <= len(in_params(s))
                     for s in entry["sigs"]) and w["positional"] <= max(len(in_params(s)) for s in entry["sigs"])
+        if lists:
+            def sig_accepts(sg):
+                for j_, p_ in enumerate(in_params(sg)[:w["supplied"]]):
+                    li = lists.get(str(j_))
+                    if li is None:
+                        continue
+                    if li == "not a sequence":
+                        return False
+                    okk = ("int",) if p_.tname in ("int", "long", "short") else ("int", "float")
+                    if any(k_ not in okk for k_ in li):
+                        return False
+                return True
+            cands = [s_ for s_ in entry["sigs"] if len(in_params(s_)) - sum(1 for q in in_params(s_) if q.init is not None) <= w["supplied"] <= len(in_params(s_))]
+            valid = valid and any(sig_accepts(s_) for s_ in cands)
         if "SystemError" in out:
             return "%s raises SystemError natively: %s" % (call, out.strip().splitlines()[-1][:160])
         if p.returncode < 0:
@@ -804,6 +1024,11 @@ def native_call(w):
                 return "%s: the library was called %d times natively" % (call, len(libline))
             got = libline[0].split()[1:]
             want = [shown.get(p_.tname, "1") for p_ in ins[:w["supplied"]]]
+            if lists:
+                li = [v_ for v_ in lists.values() if v_ != "not a sequence"][0]
+                want = [{"int": "3", "float": "2.5"}.get(k_, "?") for k_ in li] + ["|", str(len(li))]
+            elif any(p_.kind() == "nativep" and (p_.attrs.get("rank") or p_.attrs.get("dimension")) for p_ in ins[:w["supplied"]]):
+                want = ["3", "3", "|", "2"]
             if got[:len(want)] != want:
                 return "%s: the library received %r natively, the call supplies %r" % (call, got, want)
             res = [l for l in out.splitlines() if l.startswith("RESULT")]
